@@ -76,6 +76,10 @@ class JacobianMonitor(solvex.Monitor):
         # 1e-8*cond for ordinary data; where the Jacobian is tiny next to the residuals the differences cancel and rounding
         # (eps) is amplified by rscale/(dmax*jscale) - that amplification is accounted for explicitly, not by a loose constant
         tol = max(1e-8 * cond, 1e4 * np.finfo(float).eps * cond * rscale / (dmax * jscale))
+        # the evaluation points seen by the objective are fl(xbase + step): positions are known to eps*|x| only, which relative
+        # to the spread of the set is eps*|x|/dmax ("rounding of the base-point arithmetic amplified by the conditioning")
+        xmax = float(np.max(np.abs(X)))
+        tol = max(tol, 1e2 * np.finfo(float).eps * cond * xmax / dmax)
         err = float(np.max(np.abs(J - Jfit))) / jscale
         if err > tol:
             ex.violate("jacobian_is_fit", "soln.jacobian differs from the independent fit through evaluations %s by %.3g relative "
@@ -84,7 +88,8 @@ class JacobianMonitor(solvex.Monitor):
         if ex.cfg["prob"]["f"] == "lin" and not ex.cfg.get("noise_amp") and not ex.devs:
             A = np.array(ex.cfg["prob"]["A"])
             errA = float(np.max(np.abs(J - A))) / max(1e-300, float(np.max(np.abs(A))))
-            if errA > max(1e-6 * cond, 1e4 * np.finfo(float).eps * cond * rscale / (dmax * float(np.max(np.abs(A))))):
+            if errA > max(1e-6 * cond, 1e4 * np.finfo(float).eps * cond * rscale / (dmax * float(np.max(np.abs(A)))),
+                          1e2 * np.finfo(float).eps * cond * xmax / dmax):
                 ex.violate("jacobian_is_A", "linear residuals but soln.jacobian differs from A by %.3g relative (cond %.3g)" % (errA, cond))
         ex.tags.add("jacobian_checked")
         if len(nums) > ex.n + 1:
